@@ -10,9 +10,66 @@ from concurrent.futures import ProcessPoolExecutor
 import z3
 
 
+def _alpha_key(e, memo):
+    """structural key of a term, invariant under renaming of bound variables (de Bruijn indices are used as they are)"""
+    i = e.get_id()
+    k = memo.get(i)
+    if k is not None:
+        return k
+    if z3.is_quantifier(e):
+        pats = tuple(tuple(_alpha_key(c, memo) for c in e.pattern(j).children()) for j in range(e.num_patterns()))
+        k = ("Q", e.is_forall(), tuple(e.var_sort(j).name() for j in range(e.num_vars())),
+             _alpha_key(e.body(), memo), pats)
+    elif z3.is_var(e):
+        k = ("V", z3.get_var_index(e), e.sort().name())
+    elif z3.is_app(e):
+        d = e.decl()
+        k = (d.name(), d.kind(), e.sort().name() if e.num_args() == 0 else "",
+             tuple(str(p_) for p_ in d.params()) if d.kind() != z3.Z3_OP_UNINTERPRETED and e.num_args() else (),
+             tuple(_alpha_key(c, memo) for c in e.children()))
+        if e.num_args() == 0:
+            k = k + (e.sexpr(),)
+    else:
+        k = ("?", e.sexpr())
+    k = hash(k) if False else k
+    memo[i] = k
+    return k
+
+
+def _conjuncts(a, out):
+    if z3.is_and(a):
+        for c in a.children():
+            _conjuncts(c, out)
+    else:
+        out.append(a)
+
+
+def dedup_assumptions(assumptions):
+    """Top-level conjuncts of the assumptions with alpha-equivalent duplicates removed (the same invariant
+    reaches a VC through requires, callee contracts and loop facts under different bound-variable names;
+    dropping a repeated hypothesis is sound and keeps the solver from instantiating it several times)."""
+    memo, seen, out = {}, set(), []
+    flat = []
+    for a in assumptions:
+        _conjuncts(a, flat)
+    for a in flat:
+        if z3.is_true(a):
+            continue
+        try:
+            k = _alpha_key(a, memo)
+        except Exception:  # noqa
+            out.append(a)
+            continue
+        if k in seen:
+            continue
+        seen.add(k)
+        out.append(a)
+    return out
+
+
 def to_smt2(ob):
     s = z3.Solver()
-    for a in ob.assumptions:
+    for a in dedup_assumptions(ob.assumptions):
         s.add(a)
     s.add(z3.Not(ob.goal))
     return s.to_smt2()
@@ -53,6 +110,32 @@ def _solve_cvc5(text, timeout_ms):
             res, reason = "unknown", (p.stdout + p.stderr)[:200]
         else:
             reason = ""
+    except subprocess.TimeoutExpired:
+        res, reason = "unknown", "timeout"
+    finally:
+        os.unlink(path)
+    return res, time.time() - t0, reason
+
+
+def _solve_z3_old(text, rlimit, wall_s):
+    """/usr/bin/z3 (4.8.12) on the VC text under a resource limit; returns (result, seconds, reason)"""
+    t0 = time.time()
+    exe = "/usr/bin/z3"
+    if not os.path.exists(exe):
+        return "unknown", 0.0, "no /usr/bin/z3"
+    with tempfile.NamedTemporaryFile("w", suffix=".smt2", delete=False) as f:
+        f.write(text)
+        path = f.name
+    try:
+        p = subprocess.run([exe, f"rlimit={rlimit}", f"-T:{wall_s}", path], capture_output=True, text=True,
+                           timeout=wall_s + 10)
+        out = p.stdout.strip().splitlines()
+        res = out[0] if out else "unknown"
+        reason = ""
+        if res not in ("sat", "unsat", "unknown"):
+            res, reason = "unknown", (p.stdout + p.stderr)[:200]
+        elif res == "unknown":
+            reason = "resource limit"
     except subprocess.TimeoutExpired:
         res, reason = "unknown", "timeout"
     finally:
